@@ -4,6 +4,8 @@ package vhook
 
 import (
 	"runtime"
+
+	"github.com/deepteams/webp/internal/zzverif/vsync"
 	"sort"
 	"sync"
 	"sync/atomic"
@@ -73,3 +75,11 @@ func Event(name string, a, b, c int) {
 
 // Planes receives copies of the VP8 encoder's reconstruction (R4, C06).
 var PlanesFn func(w, h int, y, u, v []byte, yStride, uvStride int)
+
+// Yield is a scheduling point inserted by rewrite R3 at the entry of the
+// functions named in instr.YieldFuncs; it does nothing outside controlled mode.
+func Yield(name string) {
+	if vsync.Controlled() {
+		vsync.Point("yield " + name)
+	}
+}
